@@ -78,7 +78,7 @@ CLAIMED = {
    note="Passive: judges only what these workloads put on the wire. Counter order on the wire is not judged (reordering is the network's right). Group sessions are covered by C12 (durable counter) and C03 (group datagrams), not here. Trusted: tap, independent header decoder, snapshot hook.",
    tech="runtime monitoring: passive wire-tap monitor (nonce-uniqueness / retransmission-identity) plus session-snapshot monotonicity monitor under lossy schedules", ref="DESIGN.md §3 C15"),
  "C10": dict(cat="exploration",
-   text="Two real nodes with three mirrored secure sessions (two disturbed, one probe session), 16 acceptor slots each and a keyed hostile peer. Disturbance phase: handlers that accept after 0-5 s or never, handlers and clients dropped by cancellation at every await point (n = 0..14), 8 handler behaviours, exchange-table overflow, session-table pressure, CloseSession in flight, loss/dup/reorder, and injected secured/unsecured/group datagrams over {exchange id: fresh, live in either role, stale, live on another session} x {I, R, ack field} x {data, stand-alone ack, status report, CloseSession, Sigma1, PBKDFParamRequest, IM, MsgCounterSync} x {live, expired session}. Oracle: every payload is tagged and may surface only on the handle of its own session/exchange id/role (R1); no exchange appears after a non-initiator message, a stand-alone ack or on an expired session (R2, table sampled after every poll); after faults stop, probes in both directions on an untouched session are answered within 30 s virtual (R3); RX slot free, no exchange accept-pending or dropped, and no datagrams during the last 30 s of a 100 s quiet tail (R4-R6); run terminates (R7); an acknowledged message reaches the owner waiting in recv (R8); no exchange stays unclaimed beyond 3 s (R9). Both the default and the 3x3 small-tables build are run.",
+   text="Two real nodes with three mirrored secure sessions (two disturbed, one probe session), 16 acceptor slots each and a keyed hostile peer. Disturbance phase: handlers that accept after 0-5 s or never, handlers and clients dropped by cancellation at every await point (n = 0..14), 8 handler behaviours, exchange-table overflow, session-table pressure, CloseSession in flight, loss/dup/reorder, and injected secured/unsecured/group datagrams over {exchange id: fresh, live in either role, stale, live on another session} x {I, R, ack field} x {data, stand-alone ack, status report, CloseSession, Sigma1, PBKDFParamRequest, IM, MsgCounterSync} x {live, expired session}. Oracle: every payload is tagged and may surface only on the handle of its own session/exchange id/role (R1); no exchange appears after a non-initiator message, a stand-alone ack or on an expired session (R2, table sampled after every poll); after faults stop, probes in both directions on an untouched session are answered within 30 s virtual (R3); RX slot free, no exchange accept-pending or dropped, and no datagrams during the last 30 s of a 100 s quiet tail (R4-R6); run terminates (R7); an acknowledged message reaches the owner waiting in recv (R8); no exchange stays unclaimed beyond 3 s (R9). A family of 'unsecured twins' (2-3 unsecured peers + secure hostile peers opening exchanges with the same exchange id, follow-ups in crossed order) checks that delivery is by session/peer, not by exchange id alone. Both the default and the 3x3 small-tables build are run, each with its own coverage floors.",
    note="'Never wedges' is decided as bounded progress after faults stop on the schedules produced. Duplicates surfacing twice are counted, not judged (C09). I-flagged status reports / unsecured initiator data opening an exchange are not judged. Observed, not judged: a CloseSession sent on a fresh exchange id is dropped by a receiving rs-matter node; RX slot held for a whole MRP ladder by an owner that is sending.",
    tech="runtime monitoring: tagged-payload routing oracle, exchange-table sampling, bounded-progress probes and wire-quiescence monitor under cancellation / late-accept / hostile-injection workloads", ref="DESIGN.md §3 C10"),
  "C20": dict(cat="exploration",
